@@ -1,0 +1,69 @@
+//go:build verif
+
+package quickfix
+
+// Exports for the concurrency stress harness (build tag verif only): a session built by the real
+// sessionFactory and RUN BY ITS OWN run() goroutine, exactly as an Acceptor or Initiator runs it,
+// with the connection replaced by a pair of channels the harness owns. Nothing here is compiled
+// into the default build.
+
+import (
+	"bytes"
+	"time"
+)
+
+// VerifConcSession is a real session driven by session.run().
+type VerifConcSession struct {
+	s    *session
+	in   chan fixIn
+	done chan struct{}
+}
+
+// VerifNewConcSession builds the session through sessionFactory.newSession (all settings glue included).
+func VerifNewConcSession(initiator bool, id SessionID, sf MessageStoreFactory, settings *SessionSettings, lf LogFactory, app Application) (*VerifConcSession, error) {
+	f := sessionFactory{BuildInitiators: initiator}
+	s, err := f.newSession(id, sf, settings, lf, app)
+	if err != nil {
+		return nil, err
+	}
+	return &VerifConcSession{s: s, done: make(chan struct{})}, nil
+}
+
+// RunAsync starts the session's event loop in its own goroutine, as acceptor.Start / initiator.Start do.
+func (v *VerifConcSession) RunAsync() {
+	go func() {
+		v.s.run()
+		close(v.done)
+	}()
+}
+
+// ConnectAsync hands a fresh connection to the running session (what handleConnection does after the
+// first Logon has been read): inbound messages are injected with Inject, outbound bytes arrive on the
+// returned channel, which the session closes on disconnect.
+func (v *VerifConcSession) ConnectAsync(inCap, outCap int) (<-chan []byte, error) {
+	in := make(chan fixIn, inCap)
+	out := make(chan []byte, outCap)
+	if err := v.s.connect(in, out); err != nil {
+		return nil, err
+	}
+	v.in = in
+	return out, nil
+}
+
+// Inject delivers one framed inbound message to the event loop, as the read loop of a connection does.
+func (v *VerifConcSession) Inject(b []byte) {
+	v.in <- fixIn{bytes: bytes.NewBuffer(b), receiveTime: time.Now()}
+}
+
+// CloseInbound is what the read loop does when the socket is gone.
+func (v *VerifConcSession) CloseInbound() { close(v.in) }
+
+// Send is what SendToTarget does once the session is found; safe to call from any goroutine.
+func (v *VerifConcSession) Send(m Messagable) error { return v.s.queueForSend(m.ToMessage()) }
+
+// StopAsync asks the event loop to stop; Done is closed when run() has returned.
+func (v *VerifConcSession) StopAsync()            { v.s.stop() }
+func (v *VerifConcSession) Done() <-chan struct{} { return v.done }
+
+// Store is the session's message store; read it only after Done.
+func (v *VerifConcSession) Store() MessageStore { return v.s.store }
